@@ -728,13 +728,17 @@ def run(prop, tier, seed, timeout_s, args, t_start):
     for rec in report["obligations"]:
         if (rec["result"] == "unknown" and rec["kind"] in TOP_KINDS) or rec["result"] == "proof-broken":
             ugroups.setdefault((rec["contract"], strip_lines(rec["name"])), []).append(rec)
+        elif rec["result"] == "unknown" and rec["kind"] in INTERNAL_KINDS and "candidate counter-model" in str(rec.get("raw", "")):
+            # an invariant / frame / callee precondition with a candidate counter-model that did not replay: one witness
+            # search per contract over ALL its clauses (a found input is a real violation, none leaves it undecided)
+            ugroups.setdefault((rec["contract"], "proof-artefact"), []).append(rec)
     sjobs = []
     for (cname, gname), recs in ugroups.items():
         c = next(x for x in reg.all if x.name == cname)
         if c.replay is None:
             continue
         if recs[0]["result"] != "proof-broken" and not (gname.startswith("post#") or gname.startswith("xpost:")
-                                                         or gname.startswith("pre@")):
+                                                         or gname.startswith("pre@") or gname == "proof-artefact"):
             continue
         sjobs.append((c, recs))
     if sjobs:
@@ -746,6 +750,26 @@ def run(prop, tier, seed, timeout_s, args, t_start):
                 for r in recs:
                     r["result"] = "refuted"
                 viol_lines.append((found, True, recs[0]))
+    # paths the engine could not execute (construct outside the subset): the function is out of the verifier's reach on
+    # those paths, so the contract's clauses are tried on generated inputs against the real code (bounded fallback).  A
+    # failing input is a real, replayed violation; finding none leaves the function undecided (exit 2), never "held".
+    fb_seen = set()
+    for u in list(report["undecided"]):
+        key = (u["contract"], u["cfg"])
+        if key in fb_seen or len(fb_seen) >= 12 or u.get("pc_status") == "unsat":
+            continue
+        c = next((x for x in reg.all if x.name == u["contract"]), None)
+        if c is None or c.replay is None:
+            continue
+        fb_seen.add(key)
+        rec = {"contract": u["contract"], "cfg": u["cfg"], "name": "bounded fallback (path outside the engine's subset: "
+               + str(u["msg"])[:80] + ")", "kind": "bounded", "where": "witness search over the contract's input grammar",
+               "backend": "cpython", "result": "unknown", "ms": 0}
+        found = do_search(prop, c, rec, tier, seed)
+        if found is not None:
+            rec["result"] = "refuted"
+            report["obligations"].append(rec)
+            viol_lines.append((found, True, rec))
     for rec in report["obligations"]:
         rec.pop("_script", None)
         rec.pop("_goal", None)
